@@ -20,3 +20,7 @@ for q in shapes:
     shapes[q]["callers"] = sorted(callers.get(q, ()))
 json.dump(shapes, open("/verif/sa/known_shapes.json", "w"), indent=0, sort_keys=True)
 print(len(shapes), "functions")
+from sa.similarity import canonical_lines
+src = {q: canonical_lines(f.node) for q, f in sorted(ana.prog.functions.items())}
+json.dump(src, open("/verif/sa/known_sources.json", "w"), indent=0, sort_keys=True)
+print(sum(len(v) for v in src.values()), "reference statement lines")
